@@ -619,27 +619,34 @@ Proof. unfold image_end. rewrite image_end_fold by lia. pose proof (img_end_nonn
 
 Definition load_ok (f : list Z) (ph : phdr) : Prop :=
   is_load ph = true ->
-  p_offset ph + p_filesz ph <= flen f /\ p_filesz ph <= p_memsz ph /\ p_vaddr ph + p_memsz ph <= DRAM_SIZE - OFF /\ p_paddr ph = p_vaddr ph.
+  p_offset ph + p_filesz ph <= flen f /\ p_filesz ph <= p_memsz ph /\ p_vaddr ph + p_memsz ph <= DRAM_SIZE - OFF.
 
 Lemma img_end_ge phs ph : In ph phs -> is_load ph = true -> p_paddr ph + p_memsz ph <= img_end phs.
 Proof.
   induction phs as [|q t IH]; intros Hin Hl; [contradiction|]. cbn [img_end fold_right]. fold (img_end t).
   destruct Hin as [->|Hin]; [rewrite Hl; lia|]. specialize (IH Hin Hl). destruct (is_load q); lia.
 Qed.
-Lemma img_end_le_top f phs : Forall (load_ok f) phs -> img_end phs <= DRAM_SIZE - OFF.
+Lemma extent_nonneg phs : 0 <= extent phs.
+Proof. induction phs as [|ph t IH]; cbn [extent fold_right]; [lia|]. fold (extent t). destruct (is_load ph); lia. Qed.
+Lemma extent_ge phs ph : In ph phs -> is_load ph = true -> p_vaddr ph + p_memsz ph <= extent phs.
 Proof.
-  induction phs as [|q t IH]; intros Hall; cbn [img_end fold_right]; [unfold DRAM_SIZE, OFF, PROGRAM_START_ADDR, DRAM_START; lia|].
-  fold (img_end t). inversion Hall as [|? ? Hq Ht]; subst. specialize (IH Ht).
-  destruct (is_load q) eqn:E; [|exact IH]. destruct (Hq E) as (_ & _ & H3 & H4). lia.
+  induction phs as [|q t IH]; intros Hin Hl; [contradiction|]. cbn [extent fold_right]. fold (extent t).
+  destruct Hin as [->|Hin]; [rewrite Hl; lia|]. specialize (IH Hin Hl). destruct (is_load q); lia.
+Qed.
+Lemma extent_le_top f phs : Forall (load_ok f) phs -> extent phs <= DRAM_SIZE - OFF.
+Proof.
+  induction phs as [|q t IH]; intros Hall; cbn [extent fold_right]; [unfold DRAM_SIZE, OFF, PROGRAM_START_ADDR, DRAM_START; lia|].
+  fold (extent t). inversion Hall as [|? ? Hq Ht]; subst. specialize (IH Ht).
+  destruct (is_load q) eqn:E; [|exact IH]. destruct (Hq E) as (_ & _ & H3). lia.
 Qed.
 
-Lemma file_byte_above f phs a : Forall (load_ok f) phs -> img_end phs <= a -> file_byte f phs a = 0.
+Lemma file_byte_above f phs a : Forall (load_ok f) phs -> extent phs <= a -> file_byte f phs a = 0.
 Proof.
   intros Hall Ha. unfold file_byte. destruct (find (fun ph => covers ph a) (rev phs)) as [ph|] eqn:E; [|reflexivity].
   apply find_some in E. destruct E as [Hin Hc]. apply in_rev in Hin.
   unfold covers in Hc. apply andb_true_iff in Hc. destruct Hc as [Hc Hc3]. apply andb_true_iff in Hc. destruct Hc as [Hc1 Hc2].
-  rewrite Forall_forall in Hall. destruct (Hall _ Hin Hc1) as (_ & H2 & _ & H4).
-  pose proof (img_end_ge phs ph Hin Hc1). lia.
+  rewrite Forall_forall in Hall. destruct (Hall _ Hin Hc1) as (_ & H2 & _).
+  pose proof (extent_ge phs ph Hin Hc1). lia.
 Qed.
 
 Lemma file_byte_below f phs a : Forall (fun ph => 0 <= p_vaddr ph) phs -> a < 0 -> file_byte f phs a = 0.
